@@ -129,6 +129,18 @@ type CallSite struct {
 // interface and the method name matches), and every use of it as a function value.
 func (p *Prog) CallSites(target *types.Func) []CallSite {
 	target = target.Origin()
+	if p.callSiteCache == nil {
+		p.callSiteCache = map[*types.Func][]CallSite{}
+	}
+	if cs, ok := p.callSiteCache[target]; ok {
+		return cs
+	}
+	out := p.callSites(target)
+	p.callSiteCache[target] = out
+	return out
+}
+
+func (p *Prog) callSites(target *types.Func) []CallSite {
 	var recvT types.Type
 	if sig := target.Type().(*types.Signature); sig.Recv() != nil {
 		recvT = sig.Recv().Type()
